@@ -785,3 +785,155 @@ Example ex_c03_grid_same_shape_other_stride :
   line_sub 12 12 12 12 0 4 64 64 1 0 = (3, 3, 0, 1)%Z /\
   line_sub 6 6 6 6 0 4 64 64 1 0 = (2, 2, 0, 1)%Z.
 Proof. exact grid_same_shape_other_stride. Qed.
+
+(* ================================================================= (h) the geometric premise for the
+   MODELLED line sampling (LineGeo.v): `pts`, direction and penalty of (f) are no longer abstract — they are
+   the positions of the cells `line_subs` (= make_line_subs, tied subscript-exact every run) reads, the unit
+   vector of the candidate and `penalty_R` (= compute_distance_penalty). *)
+From SV Require Import C03.LineGeo.
+Local Open Scope R_scope.
+
+(* both coordinates of line point i are src + t_i (dst - src) with the same t_i = i/(n-1) in [0, 1] *)
+Theorem c03_line_point_param : forall a b n i,
+  (lerp a b n i == a + (b - a) * lerp_t n i)%Q /\ ((i < n)%nat -> (0 <= lerp_t n i <= 1)%Q).
+Proof. intros a b n i. split; [apply lerp_param|apply lerp_t_range]. Qed.
+Print Assumptions c03_line_point_param.
+
+(* peaks inside the PAF grid (half a cell of slack) in EITHER order ==> no line point is clipped
+   (extends c03_line_points_between, which needed a <= b) *)
+Theorem c03_line_points_not_clipped : forall ps m a b n i,
+  (i < n)%nat -> in_band ps m a = false -> in_band ps m b = false -> in_band ps m (lerp a b n i) = false.
+Proof. exact lerp_not_in_band. Qed.
+Print Assumptions c03_line_points_not_clipped.
+
+Theorem c03_line_pts_length : forall sx sy dx dy k ps h w n, length (line_pts_R sx sy dx dy k ps h w n) = n.
+Proof. exact line_pts_R_length. Qed.
+Print Assumptions c03_line_pts_length.
+
+(* every cell the sampler reads is within squared distance 2 (delta + ps/2)^2 — as distance_to_edge
+   measures it — of ANY segment whose end points are within delta (per axis) of the two peaks *)
+Theorem c03_sampled_cell_near_segment : forall sx sy dx dy k ps h w n (g : seg) (delta : R) p,
+  (0 < ps)%Z -> (1 <= h)%Z -> (1 <= w)%Z ->
+  in_band ps w sx = false -> in_band ps w dx = false ->
+  in_band ps h sy = false -> in_band ps h dy = false ->
+  0 < len2 g ->
+  - delta <= Q2R sx - s_x g <= delta -> - delta <= Q2R sy - s_y g <= delta ->
+  - delta <= Q2R dx - d_x g <= delta -> - delta <= Q2R dy - d_y g <= delta ->
+  In p (line_pts_R sx sy dx dy k ps h w n) ->
+  seg_d2 g (fst p) (snd p) <= 2 * ((delta + IZR ps / 2) * (delta + IZR ps / 2)).
+Proof.
+  intros sx sy dx dy k ps h w n g delta p H1 H2 H3 H4 H5 H6 H7 H8 H9 H10 H11 H12 H13.
+  rewrite <- half_cell_eq.
+  exact (sampled_cell_near_segment sx sy dx dy k ps h w n g delta p H1 H2 H3 H4 H5 H6 H7 H8 H9 H10 H11 H12 H13).
+Qed.
+Print Assumptions c03_sampled_cell_near_segment.
+
+(* delta = 0: every sampled cell lies within ONE cell (ps/sqrt 2 < ps) of the segment peak -> peak *)
+Theorem c03_sampled_cell_within_one_cell : forall sx sy dx dy k ps h w n p,
+  (0 < ps)%Z -> (1 <= h)%Z -> (1 <= w)%Z ->
+  in_band ps w sx = false -> in_band ps w dx = false ->
+  in_band ps h sy = false -> in_band ps h dy = false ->
+  let g := mkseg (Q2R sx) (Q2R sy) (Q2R dx) (Q2R dy) in
+  0 < len2 g ->
+  In p (line_pts_R sx sy dx dy k ps h w n) ->
+  seg_d2 g (fst p) (snd p) <= IZR ps * IZR ps / 2 /\ IZR ps * IZR ps / 2 < IZR ps * IZR ps.
+Proof. exact sampled_cell_within_one_cell. Qed.
+Print Assumptions c03_sampled_cell_within_one_cell.
+
+(* a sampled cell of animal a's true pair is >= X (squared: X^2) from the segment of any animal whose
+   bounding box is X + delta + ps/2 away from a's *)
+Theorem c03_sampled_cell_far_from_other : forall sx sy dx dy k ps h w n (ga gc : seg) (delta X : R) p,
+  (0 < ps)%Z -> (1 <= h)%Z -> (1 <= w)%Z ->
+  in_band ps w sx = false -> in_band ps w dx = false ->
+  in_band ps h sy = false -> in_band ps h dy = false ->
+  - delta <= Q2R sx - s_x ga <= delta -> - delta <= Q2R sy - s_y ga <= delta ->
+  - delta <= Q2R dx - d_x ga <= delta -> - delta <= Q2R dy - d_y ga <= delta ->
+  0 <= X -> boxes_apart ga gc (X + delta + half_cell ps) ->
+  In p (line_pts_R sx sy dx dy k ps h w n) ->
+  X * X <= seg_d2 gc (fst p) (snd p).
+Proof. exact sampled_cell_far_from_other. Qed.
+Print Assumptions c03_sampled_cell_far_from_other.
+
+(* ideal PAF of the edge alone: every sampled vector has NON-NEGATIVE dot product with the edge direction *)
+Theorem c03_sampled_vector_dot_nonneg : forall sigma g px py, 0 < len2 g ->
+  0 <= field_dot sigma [g] px py (u_x g) (u_y g).
+Proof. exact sampled_vector_dot_nonneg. Qed.
+Print Assumptions c03_sampled_vector_dot_nonneg.
+
+(* ... and the true pair's ideal line score over the MODELLED cells is >= exp(-(2 (delta+ps/2)^2)^2 / (2 sigma^2)) *)
+Theorem c03_sampled_true_score_bound : forall sigma sx sy dx dy k ps h w n (g : seg) (delta : R),
+  0 < sigma -> (0 < n)%nat ->
+  (0 < ps)%Z -> (1 <= h)%Z -> (1 <= w)%Z ->
+  in_band ps w sx = false -> in_band ps w dx = false ->
+  in_band ps h sy = false -> in_band ps h dy = false ->
+  0 < len2 g ->
+  - delta <= Q2R sx - s_x g <= delta -> - delta <= Q2R sy - s_y g <= delta ->
+  - delta <= Q2R dx - d_x g <= delta -> - delta <= Q2R dy - d_y g <= delta ->
+  paf_weight sigma (sample_r2 ps delta)
+  <= line_score sigma [g] (line_pts_R sx sy dx dy k ps h w n) (u_x g) (u_y g).
+Proof. exact sampled_true_score_bound. Qed.
+Print Assumptions c03_sampled_true_score_bound.
+
+(* compute_distance_penalty >= - dist_penalty_weight (the P of the cross bound is explicit) *)
+Theorem c03_penalty_lower_bound : forall len2 M wt, (0 < len2)%Q -> (0 <= M)%Q -> (0 <= wt)%Q ->
+  - Q2R wt <= penalty_R len2 M wt.
+Proof. exact penalty_lower. Qed.
+Print Assumptions c03_penalty_lower_bound.
+
+(* the scene-level premise (peaks within delta of the labels, boxes of complete animals X + delta + ps/2
+   apart, true edges <= max_edge_length, cross lines counted on the MODELLED cells) gives geo_edge with
+   r2 = 2 (delta + ps/2)^2, R2 = X^2, P = dist_penalty_weight, n = n_points — for the modelled sampler *)
+Theorem c03_sampler_gives_geo_edge :
+  forall n_animals vis score sigma eps edges peak truth ps h w npts M wt k e delta X kappa m,
+  sampler_edge n_animals vis score sigma eps edges peak truth ps h w npts M wt k e delta X kappa m ->
+  geo_edge n_animals vis score sigma eps (seg_truth edges truth)
+           (s_pts edges peak ps h w npts) (s_dirx edges peak) (s_diry edges peak) (s_pen edges peak M wt) k e
+           (sample_r2 ps delta) (X * X) kappa (Q2R wt) m npts.
+Proof. exact sampler_gives_geo_edge. Qed.
+Print Assumptions c03_sampler_gives_geo_edge.
+
+(* explicit inequality ==> the `separated` premise of (d) *)
+Theorem c03_sampler_gives_separation :
+  forall n_animals vis score mls sigma eps edges peak truth ps h w npts M wt k e delta X kappa m,
+  sampler_edge n_animals vis score sigma eps edges peak truth ps h w npts M wt k e delta X kappa m ->
+  let A := INR (length (both n_animals vis e)) in
+  let T := paf_weight sigma (sample_r2 ps delta) * kappa - A * paf_weight sigma (X * X) - eps in
+  let C := INR m / INR npts + A * paf_weight sigma (X * X) + eps in
+  3 * C + Q2R wt < T -> C < Q2R mls -> Q2R mls <= T ->
+  separated n_animals vis score mls k e.
+Proof. exact sampler_gives_separation. Qed.
+Print Assumptions c03_sampler_gives_separation.
+
+(* rooted-tree skeleton + assignment contract + scene-level premise for every edge type + C08 contract
+   ==> the property's groups (partial: the cross-candidate count and the score tie are still premises) *)
+Theorem c03_reassembly_from_sampler_partial :
+  forall n_animals vis score mls sigma eps edges peak truth ps h w npts M wt (r : nat) (matching : nat -> list (nat * nat)),
+  C17.Lemmas.arborescence edges r ->
+  (forall k e, nth_error edges k = Some e -> all_finite n_animals vis score k e ->
+     optimal (srcs n_animals vis e) (dsts n_animals vis e) (sck score k) (matching k)) ->
+  (forall k e, nth_error edges k = Some e ->
+     sampler_premise n_animals vis score mls sigma eps edges peak truth ps h w npts M wt k e) ->
+  forall output : list instance,
+  (forall I, In I output ->
+     exists p, member p I /\ (forall q, member q I <-> conn edges score mls matching (processed edges) p q) /\
+               (exists q, q <> p /\ member q I)) ->
+  (forall p q, adj edges score mls matching (processed edges) p q -> exists I, In I output /\ member p I) ->
+  (forall i j I J p, nth_error output i = Some I -> nth_error output j = Some J ->
+     member p I -> member p J -> i = j) ->
+  reassembled edges n_animals vis all_edges output.
+Proof. exact reassembly_from_sampler_tree. Qed.
+Print Assumptions c03_reassembly_from_sampler_partial.
+
+(* non-vacuity (LineGeoEx.v): one animal, labels = peaks (0,0) -> (8,0), PAF stride 2 on 8 x 8, 3 line points,
+   sigma 15, clearance 10 px, tie 1/20, max_edge_length 40, dist_penalty_weight 0: the scene-level premise
+   holds for the MODELLED cells and the explicit inequality gives `separated` with min_line_scores 3/10 *)
+From SV Require Import C03.LineGeoEx.
+Example ex_c03_sampler_premise_nonvacuous :
+  exists vis score edges peak truth,
+    sampler_edge 1 vis score 15 (1 / 20) edges peak truth 2 8 8 3 40 0 0 (0, 1)%nat 0 10 1 0 /\
+    separated 1 vis score (3 # 10) 0 (0, 1)%nat.
+Proof.
+  do 5 eexists. split; [exact ex_sampler_edge|exact ex_sampler_separated].
+Qed.
+Print Assumptions ex_c03_sampler_premise_nonvacuous.
+Local Close Scope R_scope.
